@@ -5,6 +5,7 @@ pub mod c15_bin;
 pub mod c07;
 pub mod c08;
 pub mod c08_tok;
+pub mod c08_order1;
 pub mod c16;
 pub mod c16_fmtmodel;
 pub mod c12;
